@@ -99,6 +99,7 @@ def run(ctx):
             "etag": [("If-None-Match", tag)], "weak": [("If-None-Match", "W/" + tag)],
             "listFirst": [("If-None-Match", '%s, "0000"' % tag)], "listLast": [("If-None-Match", '"0000", %s' % tag)],
             "weakListLast": [("If-None-Match", '"0000", W/%s' % tag)], "weakFirstThenTag": [("If-None-Match", 'W/"0000",%s' % tag)],
+            "listTwoLines": [("If-None-Match", tag), ("If-None-Match", '"0000"')],
             "star": [("If-None-Match", "*")], "lm": [("If-Modified-Since", lm)],
             "both": [("If-None-Match", tag), ("If-Modified-Since", lm)],
             "bothRev": [("If-Modified-Since", lm), ("If-None-Match", tag)], "staleEtag": [("If-None-Match", '"0000"')],
